@@ -315,6 +315,66 @@ static void run_g(void)
                  vk_double_closes, vk_foreign_closes);
 }
 
+/* ---------------------------------------------------------------- (H) one child: a thread writes to it while another waits for it */
+static reproc_t *PA;
+static struct vk_child *CA;
+static int h_wres, h_mres;
+
+static void *body_hw(void *arg)
+{
+  (void) arg;
+  vk_api_seq = 6001;
+  static const uint8_t d[3] = { 'x', 'y', 'z' };
+  h_wres = reproc_write(PA, d, 3);
+  vk_api_seq = 0;
+  return NULL;
+}
+
+static void *body_hm(void *arg)
+{
+  (void) arg;
+  vk_api_seq = 6002;
+  h_mres = reproc_wait(PA, REPROC_INFINITE);
+  vk_api_seq = 0;
+  return NULL;
+}
+
+static void run_h(int bound)
+{
+  memset(&vk_cfg, 0, sizeof vk_cfg);
+  vk_cfg.sched_on = 1;
+  vk_cfg.sched_bound = bound;
+  vk_cfg.vlimit = 40;
+  vk_cfg.hello_lite = 1;
+  snprintf(key, sizeof key, "h_c20|writer+waiter|preemptions<=%d", bound);
+  hx_desc("%s", key);
+  snprintf(key, sizeof key, "h_c20|writer+waiter");
+  hx_begin();
+  vk_script("X5"); /* exits without ever reading its stdin */
+  PA = hx_new();
+  reproc_options o;
+  memset(&o, 0, sizeof o);
+  vk_cfg.sched_on = 0;
+  int r = hx_start(PA, hx_helper_argv(), o);
+  vk_cfg.sched_on = 1;
+  if (r < 0) vk_finish(OUT_INFRA, "start failed: %d", r);
+  CA = &vk_children[0];
+  h_wres = h_mres = -9999;
+  int tw = vk_thread_create(body_hw, NULL);
+  int tm = vk_thread_create(body_hm, NULL);
+  vk_thread_join(tw);
+  vk_thread_join(tm);
+  /* the write either went into the pipe (3) or found the reader gone; the wait has the child's own status; nobody touched a descriptor twice */
+  if (h_wres != 3 && h_wres != REPROC_EPIPE) vk_violation("C20", "writer-beside-waiter", key, "write returned %s while another thread was waiting for the same child", hx_errname(h_wres));
+  else if (h_mres != 5) vk_violation("C20", "own-status", key, "wait returned %s, the child exits with 5", hx_errname(h_mres));
+  else vk_hit(CL_A_OK);
+  if (vk_double_closes || vk_foreign_closes)
+    vk_violation("C20", "cross-talk-close", key, "%d double and %d foreign close(s) with a writer and a waiter on one child", vk_double_closes, vk_foreign_closes);
+  int used = S->used[K_SCHED];
+  vk_hit(used == 0 ? CL_PREEMPT0 : used == 1 ? CL_PREEMPT1 : CL_PREEMPT2);
+  hx_destroy(PA);
+}
+
 /* ---------------------------------------------------------------- (A) reader and writer on one child */
 static reproc_t *PA;
 static struct vk_child *CA;
@@ -428,7 +488,7 @@ static void run_c(void)
   vk_thread_join(b);
 }
 
-static long c20_n(int tier) { return tier ? 8 : 7; }
+static long c20_n(int tier) { return tier ? 9 : 8; }
 static void c20_run(int tier, long cfg)
 {
   switch (cfg) {
@@ -439,7 +499,8 @@ static void c20_run(int tier, long cfg)
     case 4: run_d(tier ? 2 : 1); break;
     case 5: run_e(tier ? 2 : 1); break;
     case 6: run_g(); break;
-    case 7: run_b(3, 0, 0); break; /* three threads: every free alternative (blocked calls, joins, exits), no preemption */
+    case 7: run_h(tier ? 3 : 2); break;
+    case 8: run_b(3, 0, 0); break; /* three threads: every free alternative (blocked calls, joins, exits), no preemption */
   }
 }
 
